@@ -110,6 +110,27 @@ func registerIntrinsics(e *Engine) {
 			}
 			return TrueT
 		}
+		// structural: every part's alphabet is inside cs
+		all := true
+		for _, p := range strParts(s) {
+			pc := p.CS
+			if !p.Const {
+				c, ok := st.charset[p.S]
+				if !ok {
+					all = false
+					break
+				}
+				pc = c
+			}
+			for i := 0; i < len(pc); i++ {
+				if !strings.Contains(cs, string(pc[i])) {
+					all = false
+				}
+			}
+		}
+		if all {
+			return TrueT
+		}
 		return mk(SBool, 0, "(str.in_re %s (re.* %s))", s.S, charsetRe(cs))
 	}
 	// vStrEq/vStrContains etc. as non-forking predicates
@@ -299,6 +320,9 @@ func registerLibHooks(e *Engine) {
 		isNum := mk(SBool, 0, "(str.in_re %s (re.++ (re.opt (re.union (str.to_re \"+\") (str.to_re \"-\"))) %s))", s.S, digits)
 		if st.cannotContain(s, "+") && st.cannotContain(s, "-") {
 			isNum = mk(SBool, 0, "(str.in_re %s %s)", s.S, digits)
+			if onlyDigits(st, s) {
+				isNum = Not(Eq(s, StrT("")))
+			}
 		}
 		if s.Const {
 			isNum = BoolT(isDecimal(s.CS))
@@ -332,6 +356,131 @@ func registerLibHooks(e *Engine) {
 		}
 		return TupleV{st.fromMathInt(val, intT), &IfaceV{}}
 	}
+	// unicode predicates on ASCII code points (all symbolic strings are ASCII)
+	inRanges := func(st *State, v Value, rs ...[2]int64) *Term {
+		c := st.mathInt(v.(*Term), types.Typ[types.Int32])
+		var alts []*Term
+		for _, r := range rs {
+			if r[0] == r[1] {
+				alts = append(alts, Eq(c, IntT64(r[0])))
+			} else {
+				alts = append(alts, And(IntLe(IntT64(r[0]), c), IntLe(c, IntT64(r[1]))))
+			}
+		}
+		return Or(alts...)
+	}
+	H["unicode.IsSpace"] = func(st *State, a []Value) Value {
+		return inRanges(st, a[0], [2]int64{9, 13}, [2]int64{32, 32})
+	}
+	H["unicode.IsLetter"] = func(st *State, a []Value) Value {
+		return inRanges(st, a[0], [2]int64{'A', 'Z'}, [2]int64{'a', 'z'})
+	}
+	H["unicode.IsDigit"] = func(st *State, a []Value) Value {
+		return inRanges(st, a[0], [2]int64{'0', '9'})
+	}
+	// strings.IndexFunc(s, f) for a pure predicate f: f is evaluated concretely
+	// on every ASCII code point; "no rune satisfies f" becomes a regular
+	// membership. Only the sign of the result is exact for symbolic s (the
+	// index itself is a fresh value in [0,len(s)) ).
+	H["strings.IndexFunc"] = func(st *State, a []Value) Value {
+		s := a[0].(*Term)
+		f := a[1].(*FuncV)
+		var rejects []byte // bytes for which f is false
+		accAll := true
+		sat := [128]bool{}
+		for c := 0; c < 128; c++ {
+			r := st.Call(f, []Value{st.E.intTerm(big.NewInt(int64(c)), types.Typ[types.Int32])}, nil)
+			t, ok := r.(*Term)
+			if !ok || !t.Const {
+				st.unsupported("strings.IndexFunc with a predicate that is not concrete on concrete runes")
+			}
+			sat[c] = t.CB
+			if !t.CB {
+				rejects = append(rejects, byte(c))
+			} else {
+				accAll = false
+			}
+		}
+		_ = accAll
+		if s.Const {
+			for i := 0; i < len(s.CS); i++ {
+				if s.CS[i] < 128 && sat[s.CS[i]] {
+					return st.E.intTerm(big.NewInt(int64(i)), intT)
+				}
+			}
+			return st.E.intTerm(big.NewInt(-1), intT)
+		}
+		// structural: every part's alphabet avoids the satisfying set
+		none := true
+		for _, p := range strParts(s) {
+			var cs string
+			if p.Const {
+				cs = p.CS
+			} else if c, ok := st.charset[p.S]; ok {
+				cs = c
+			} else {
+				none = false
+				break
+			}
+			for i := 0; i < len(cs); i++ {
+				if cs[i] < 128 && sat[cs[i]] {
+					none = false
+				}
+			}
+		}
+		if none {
+			return st.E.intTerm(big.NewInt(-1), intT)
+		}
+		noneT := mk(SBool, 0, "(str.in_re %s (re.* %s))", s.S, charsetRe(string(rejects)))
+		if st.Branch(noneT) {
+			return st.E.intTerm(big.NewInt(-1), intT)
+		}
+		idx := st.FreshTerm("indexfunc", SInt, 0)
+		st.assertTerm(And(IntLe(IntT64(0), idx), IntLt(idx, st.strLen(s))))
+		idx.Lo = big.NewInt(0)
+		return st.fromMathInt(idx, intT)
+	}
+	// strings.Fields over alphabets whose only white space is ' '
+	H["strings.Fields"] = func(st *State, a []Value) Value {
+		s := a[0].(*Term)
+		for _, w := range []string{"\t", "\n", "\v", "\f", "\r"} {
+			if !s.Const && !st.cannotContain(s, w) {
+				st.unsupported("strings.Fields on a string that may contain white space other than ' '")
+			}
+		}
+		if s.Const {
+			var parts []Value
+			for _, f := range strings.Fields(s.CS) {
+				parts = append(parts, StrT(f))
+			}
+			o := st.newObject(types.NewArray(types.Typ[types.String], int64(len(parts))), "fields", &ArrayV{E: parts})
+			return &SliceV{Obj: o, Len: len(parts), Cap: len(parts)}
+		}
+		var parts []Value
+		rest := s
+		for k := 0; ; k++ {
+			if k > st.E.MaxUnroll+4 {
+				st.abort("bound", "strings.Fields: too many fields")
+			}
+			found, h, t := st.splitFirst(rest, " ")
+			piece := rest
+			if found {
+				piece = h
+			}
+			if !st.Branch(Eq(piece, StrT(""))) {
+				parts = append(parts, piece)
+			}
+			if !found {
+				break
+			}
+			rest = t
+		}
+		if len(parts) == 0 {
+			return &SliceV{}
+		}
+		o := st.newObject(types.NewArray(types.Typ[types.String], int64(len(parts))), "fields", &ArrayV{E: parts})
+		return &SliceV{Obj: o, Len: len(parts), Cap: len(parts)}
+	}
 	// synchronisation primitives: single-threaded model, lock discipline recorded.
 	noop := func(st *State, a []Value) Value { return nil }
 	for _, n := range []string{
@@ -361,6 +510,25 @@ func registerLibHooks(e *Engine) {
 	H["errors.New"] = func(st *State, a []Value) Value {
 		return &IfaceV{T: st.E.errorsStringType(), V: &PtrV{Obj: st.newObject(nil, "errors.New", &StructV{F: []Value{a[0]}})}}
 	}
+}
+
+func onlyDigits(st *State, s *Term) bool {
+	for _, p := range strParts(s) {
+		cs := p.CS
+		if !p.Const {
+			c, ok := st.charset[p.S]
+			if !ok {
+				return false
+			}
+			cs = c
+		}
+		for i := 0; i < len(cs); i++ {
+			if cs[i] < '0' || cs[i] > '9' {
+				return false
+			}
+		}
+	}
+	return true
 }
 
 func pathBase(s string) string {
